@@ -36,6 +36,30 @@ func init() {
 		e.assume(mkBool(And(BVCmp("bvsge", s, BVConst(uint64(lo), 64)), BVCmp("bvsle", s, BVConst(uint64(hi), 64)))))
 		return symv{s, types.Int}
 	})
+	// FloatFrom / IntFrom: a value drawn from a small finite list, as an ite-table over
+	// a fresh selector (see table lifting in term.go).
+	vhreg("FloatFrom", func(fr *frame, args []value) value {
+		e := fr.eng()
+		list := args[1].([]value)
+		s := e.newSym(args[0].(string), SBV8)
+		e.assume(mkBool(BVCmp("bvult", s, BVConst(uint64(len(list)), 8))))
+		t := FPConst(list[len(list)-1].(float64))
+		for i := len(list) - 2; i >= 0; i-- {
+			t = Ite(Eq(s, BVConst(uint64(i), 8)), FPConst(list[i].(float64)), t)
+		}
+		return mkVal(t, types.Float64)
+	})
+	vhreg("IntFrom", func(fr *frame, args []value) value {
+		e := fr.eng()
+		list := args[1].([]value)
+		s := e.newSym(args[0].(string), SBV8)
+		e.assume(mkBool(BVCmp("bvult", s, BVConst(uint64(len(list)), 8))))
+		t := BVConst(uint64(asInt64(list[len(list)-1])), 64)
+		for i := len(list) - 2; i >= 0; i-- {
+			t = Ite(Eq(s, BVConst(uint64(i), 8)), BVConst(uint64(asInt64(list[i])), 64), t)
+		}
+		return mkVal(t, types.Int)
+	})
 	vhreg("Bytes", func(fr *frame, args []value) value {
 		n := int(asInt64(args[1]))
 		b := make([]value, n)
@@ -141,6 +165,7 @@ func init() {
 		}
 		return nil
 	})
+	vhreg("Thorough", func(fr *frame, args []value) value { return fr.eng().cfg.Thorough })
 	vhreg("MapOrders", func(fr *frame, args []value) value {
 		fr.i.mapOrders = args[0].(bool)
 		return nil
